@@ -80,3 +80,10 @@ CHECKS["C17"] = dict(
  text="19 failure kinds (assert, get of nil, field of nil, list/string index, remove, zero divisor of int/bigint/float/byte, % by 0, overflow in + * unary -, shift range, failed to_byte/to_int, substring range, missing map key) x all call chains of length 0..3 (quick) / 0..4 plus 5..6 over {function, method, callback} (thorough) over {plain function, closure, method, map callback, function of an imported module} x failing statement plain / in if / else / while / from. Oracle: exit status 1 (never 101/134), the fatal-run-time-error banner after all earlier output (observed through one merged pipe), no later statement executed, the printed trace (block pseudo-frames dropped) listing exactly the active functions innermost first down to the module, with labels learnt from the loaded bytecode (hook H3); a failed assert names file:line:col of that assert.",
  note="Labels are learnt from make_function/store pairs and method names, not guessed. An imported-module frame can only be followed by a function or closure frame in the chain.",
  design_ref="DESIGN.md section 4, C17")
+
+CHECKS["C13"] = dict(
+ category="model_checking",
+ technique="explicit-state breadth-first search over operation histories with de-duplication on the canonical model heap; every transition replayed on the real CLI",
+ text="Five container templates (int lists with an alias and an independent list; string lists; lists of optionals; nested lists sharing an inner list; maps with an alias and an independent map) x the full operation alphabet of the property (push, remove / read / index assignment / op-assignment at indices -1, 0, len-1, len, reverse, clear, clone, re-aliasing, join, map, filter, index_of, len, ==, to_str; map literal, read, assignment, op-assignment, replace, remove, contains_key, len, keys, values, pairs, clear, clone). BFS to depth 4 (quick: ~5 000 model states, ~35 000 transitions) / depth 7 (thorough) with state de-duplication; each transition is executed on the real CLI along the shortest history to its source state, every step printing its result and all containers; thorough also replays transitions along a second witness history reaching the same model state.",
+ note="Python list/dict model with explicit aliasing. Values in {0,1,2}, list length capped at 3 by the alphabet. Map-derived output compared as sorted multisets. Out-of-range accesses must stop the program (any non-zero exit).",
+ design_ref="DESIGN.md section 4, C13")
